@@ -51,12 +51,18 @@ def judge(case, part):
     dialect = sql.SQL_NAME_TO_DIALECT_MAP[case["dialect"]]
     rows = [["D", "Format", "Delimited"]]
     for field in case["fields"]:
-        rows.append(["F", field["name"], "", "X" if field["empty"] else "", field.get("length", ""), field["type"], field.get("rule", "")])
+        if "default" not in field:
+            rows.append(["F", field["name"], "", "X" if field["empty"] else "", field.get("length", ""), field["type"], field.get("rule", "")])
     part.evaluations += 1
     part.transitions += 2
     tag = "%s|%%s" % case["dialect"]
     try:
         cid = harness.make_cid(rows)
+        for field in case["fields"]:
+            if "default" in field:
+                # a field added through the API with a value to use for empty cells (shows as a DEFAULT clause)
+                field_class = getattr(m["fields"], field["type"] + "FieldFormat")
+                cid.add_field_format(field_class(field["name"], field["empty"], field.get("length", ""), field.get("rule", ""), cid.data_format, empty_value=field["default"]))
         statement = sql.SqlFactory(cid, "some_table", dialect).create_table_statement()
     except Exception as error:
         part.fail(tag % ("statement-not-generated:" + type(error).__name__), case, "create table statement", repr(error))
@@ -160,6 +166,12 @@ def all_cases(tier="quick"):
             cases.append({"dialect": dialect, "fields": [{"name": "v", "type": "Integer", "empty": False, "rule": rule, "range": [lo, hi]}]})
         for length, upper in (("0, 5...10", 10), ("1...2, 8", 8), ("8, 1...2", 8), ("0...3", 3)):
             cases.append({"dialect": dialect, "fields": [text_field("t", length, upper, True)]})
+        # fields added through the API with a default for empty cells, after a plain first field: NOT NULL is about the empty mark alone
+        for empty_flags in itertools.product((False, True), repeat=2):
+            api_fields = [text_field("first", "...5", 5, False)]
+            for index, empty in enumerate(empty_flags):
+                api_fields.append(dict(text_field("d%d" % index, "...%d" % (4 + index), 4 + index, empty), default="X%d" % index))
+            cases.append({"dialect": dialect, "fields": api_fields})
         # upper length limits around the sizes at which database products cap or switch their character types
         for upper in (1, 254, 255, 256, 2000, 3999, 4000, 4001, 8000, 8001, 32672, 32673, 32767, 65535, 65536, 10**6, 2**31):
             for field_type, rule in (("Text", ""), ("Pattern", "a*"), ("RegEx", "a+")):
